@@ -13,8 +13,26 @@ REPLAY_DIR = os.path.join(vdrv.VERIF, "replay")
 
 def build():
     env = dict(os.environ, CARGO_NET_OFFLINE="true", VERIF_REPO=vdrv.REPO)
+    crate = REPLAY_DIR
     tgt = os.path.join(vdrv.BUILD, "replay-target")
-    r = subprocess.run(["cargo", "build", "--release", "--offline", "--target-dir", tgt], cwd=REPLAY_DIR, env=env,
+    if os.path.abspath(vdrv.REPO) != "/repo":
+        # a scratch copy of the crate under check (development aids: seeds and refactors tried without touching
+        # /repo): the replay crate is copied with its dependency path pointing at the copy
+        if not os.path.exists(os.path.join(vdrv.REPO, "Cargo.toml")):
+            return None, "the scratch tree %s has no Cargo.toml: no witness can be run against it" % vdrv.REPO
+        import shutil
+        crate = os.path.join(vdrv.WORK, "replay-crate")
+        if os.path.exists(crate):
+            shutil.rmtree(crate)
+        shutil.copytree(REPLAY_DIR, crate, ignore=shutil.ignore_patterns("target"))
+        ct = os.path.join(crate, "Cargo.toml")
+        txt = open(ct).read().replace('path = "/repo"', 'path = "%s"' % os.path.abspath(vdrv.REPO))
+        open(ct, "w").write(txt)
+        tgt = os.path.join(vdrv.WORK, "replay-target")
+        warm = os.path.join(vdrv.BUILD, "replay-target")
+        if not os.path.exists(tgt) and os.path.exists(warm):
+            shutil.copytree(warm, tgt)
+    r = subprocess.run(["cargo", "build", "--release", "--offline", "--target-dir", tgt], cwd=crate, env=env,
                        stdout=subprocess.PIPE, stderr=subprocess.PIPE, text=True, timeout=1500)
     if r.returncode != 0:
         return None, r.stderr[-2000:]
